@@ -192,6 +192,30 @@ async fn cafile(addr_a: SocketAddr, a: &Certs, b: &Certs, topic: &str) -> String
     match tokio::time::timeout(Duration::from_secs(30), r).await { Ok(Ok(s)) => s, Ok(Err(e)) => format!("void:{}", format!("{e}").replace(' ', "_").chars().take(80).collect::<String>()), Err(_) => "void:timeout".into() }
 }
 
+/// `tls skew <seconds>`: a set generated just now, judged by peers whose clock is <seconds> behind (negative: ahead) of
+/// the machine that generated it: the verifiers the two sides are configured with (webpki over the set's CA) accept the
+/// server's and the client's certificate. Clocks of two machines are never exactly in step.
+fn skew(c: &Certs, secs: i64) -> String {
+    use rustls::client::ServerCertVerifier;
+    use rustls::server::ClientCertVerifier;
+    let r = (|| -> anyhow::Result<String> {
+        let now = if secs >= 0 { std::time::SystemTime::now() - Duration::from_secs(secs as u64) } else { std::time::SystemTime::now() + Duration::from_secs((-secs) as u64) };
+        let mut croots = rustls::RootCertStore::empty();
+        croots.add(&rustls::Certificate(std::fs::read(c.client("ca.der"))?))?;
+        let mut sroots = rustls::RootCertStore::empty();
+        sroots.add(&rustls::Certificate(std::fs::read(c.server("ca.der"))?))?;
+        let server_cert = rustls::Certificate(std::fs::read(c.server("localhost.der"))?);
+        let client_cert = rustls::Certificate(std::fs::read(c.client("localhost.der"))?);
+        let v = rustls::client::WebPkiVerifier::new(croots, None);
+        let name = rustls::ServerName::try_from("localhost").map_err(|e| anyhow::anyhow!("{e}"))?;
+        let s_ok = v.verify_server_cert(&server_cert, &[], &name, &mut std::iter::empty(), &[], now).is_ok();
+        let cv = rustls::server::AllowAnyAuthenticatedClient::new(sroots);
+        let c_ok = cv.verify_client_cert(&client_cert, &[], now).is_ok();
+        Ok(if s_ok && c_ok { "accept".to_string() } else { format!("refuse:server_cert_{}_client_cert_{}", if s_ok { "ok" } else { "refused" }, if c_ok { "ok" } else { "refused" }) })
+    })();
+    r.unwrap_or_else(|e| format!("void:{}", format!("{e}").replace(' ', "_").chars().take(80).collect::<String>()))
+}
+
 pub fn run(cfg: &Cfg) {
     let mut out = Out::new(&cfg.out, "e2etls");
     let rt = runtime();
@@ -253,6 +277,7 @@ pub fn run(cfg: &Cfg) {
         cases.push("tls wrongca trusted".into());
         cases.push("tls rotate 3".into());
         cases.push("tls cafile trusted".into());
+        for sk in [0i64, 5, 120, 3600, 86_400, -120, -86_400] { cases.push(format!("tls skew {sk}")); }
         for c in ["trusted", "otherca", "selfsigned", "none"] { cases.push(format!("tlsd {c}")); }
         // whoever presents a certificate of CA A somewhere in its chain is not thereby certified by CA A
         cases.push("tls trusted otherca+chain".into());
@@ -291,7 +316,8 @@ pub fn run(cfg: &Cfg) {
         }
         let addr = if t[1] == "default" { addr_default.unwrap() } else if t[2] == "trusted" { addr_t } else if t[2] == "noexp" { addr_n } else if t[2] == "otherca+chain" { addr_chain } else { addr_o };
         let topic = format!("/verif/tls{i}");
-        let res = if t[1] == "cafile" { rt.block_on(cafile(addr_t, &a, &b, &topic)) }
+        let res = if t[1] == "skew" { skew(&a, t[2].parse().unwrap_or(0)) }
+            else if t[1] == "cafile" { rt.block_on(cafile(addr_t, &a, &b, &topic)) }
             else if t[1] == "default" { rt.block_on(attempt(addr, &a, &b, &ss, &bun, t[2], &topic)) }
             else if t[1] == "rotate" { rt.block_on(rotate(addr_t, addr_rot, &a, t[2].parse().unwrap_or(1), &topic)) }
             else if t[1] == "noexp" { rt.block_on(attempt(addr, &ne, &b, &ss, &bun, "trusted", &topic)) }
@@ -313,7 +339,7 @@ pub fn run(cfg: &Cfg) {
             else if t[1] == "lapsedself" { rt.block_on(attempt_with(addr, &a, &b, &ss, &bun, "explicit", &topic, Some(&old[0]))) }
             else if t[1] == "lapsedother" { rt.block_on(attempt_with(addr, &a, &b, &ss, &bun, "explicit", &topic, Some(&old[1]))) }
             else { rt.block_on(attempt(addr, &a, &b, &ss, &bun, t[1], &topic)) };
-        let want = if t[1] == "default" { if t[2] == "trusted" { "accept" } else { "refuse" } } else if t[1] == "rotate" || t[1] == "cafile" { "refuse" } else if t[1] == "rerun" { "accept" } else if (t[1] == "trusted" || t[1] == "bundle" || t[1] == "noexp") && (t[2] == "trusted" || t[2] == "noexp") && (t[1] == "noexp") == (t[2] == "noexp") { "accept" } else { "refuse" };
+        let want = if t[1] == "skew" { "accept" } else if t[1] == "default" { if t[2] == "trusted" { "accept" } else { "refuse" } } else if t[1] == "rotate" || t[1] == "cafile" { "refuse" } else if t[1] == "rerun" { "accept" } else if (t[1] == "trusted" || t[1] == "bundle" || t[1] == "noexp") && (t[2] == "trusted" || t[2] == "noexp") && (t[1] == "noexp") == (t[2] == "noexp") { "accept" } else { "refuse" };
         let mon = if res == want { Ok(()) } else { Err(format!("C15: client identity {} against server identity {}: {res}, must {want}", t[1], t[2])) };
         out.stat(&format!("client_{}", t[1]));
         out.case(c, &res, mon);
